@@ -57,6 +57,8 @@ pub struct NfaBuilder<L, V> {
     pub(crate) outputs: Vec<Output<V>>, // in which common parts are merged.
     pub(crate) len: usize,
     pub(crate) match_kind: MatchKind,
+    // Patterns dropped under leftmost-first semantics (kept only to detect duplicates).
+    shadowed: alloc::collections::BTreeSet<Vec<L>>,
 }
 
 impl<L, V> NfaBuilder<L, V>
@@ -73,7 +75,23 @@ where
             outputs: vec![],
             len: 0,
             match_kind,
+            shadowed: alloc::collections::BTreeSet::new(),
         }
+    }
+
+    // Reports a duplicate if a pattern dropped under leftmost-first semantics was already
+    // registered or already dropped.
+    fn check_shadowed_duplicate(&mut self, pattern: &[L]) -> Result<()> {
+        let mut state_id = Some(ROOT_STATE_ID);
+        for &c in pattern {
+            state_id = state_id.and_then(|s| self.child_id(s, c));
+        }
+        let registered =
+            state_id.map_or(false, |s| self.states[usize::from_u32(s)].borrow().output.is_some());
+        if registered || !self.shadowed.insert(pattern.to_vec()) {
+            return Err(DaachorseError::duplicate_pattern(format!("{pattern:?}")));
+        }
+        Ok(())
     }
 
     #[inline(always)]
@@ -90,9 +108,12 @@ where
         for &c in pattern {
             if self.match_kind.is_leftmost_first() {
                 // If state_id has an output, the descendants will never searched.
-                let output = &self.states[usize::from_u32(state_id)].borrow().output;
-                if output.is_some() {
-                    return Ok(());
+                let has_output = self.states[usize::from_u32(state_id)]
+                    .borrow()
+                    .output
+                    .is_some();
+                if has_output {
+                    return self.check_shadowed_duplicate(pattern);
                 }
             }
 
